@@ -197,7 +197,41 @@ func ruleCharset(c *Ctx, r *R) {
 		r.check(okArg, "reserve-flag:"+name, c.Pos(fd.Pos()), fmt.Sprint(wantReserve), fmt.Sprintf("%s passes reserve=%v: decodeURI must preserve reserved escapes and decodeURIComponent must not (§15.1.3.1-2)", name, !wantReserve))
 	}
 	// --- escape(): the predicate deciding which bytes are escaped
-	if fd := c.Decl(c.LookupFunc("", "builtinShouldEscape")); fd != nil {
+	// the predicate is found by role: the function bound to the global `escape`, or the first of its callees (two levels),
+	// that compares a byte with character ranges or asks strings.ContainsRune about a constant set
+	var escFd *ast.FuncDecl
+	if f := bound["escape"]; f != nil {
+		level := []*ssa.Function{c.SSAFunc(f)}
+		for d := 0; d < 3 && escFd == nil; d++ {
+			var next []*ssa.Function
+			for _, sf := range level {
+				if sf == nil || sf.Blocks == nil {
+					continue
+				}
+				tests := false
+				for _, b := range sf.Blocks {
+					for _, ins := range b.Instrs {
+						if call, ok := ins.(*ssa.Call); ok {
+							if cl := call.Call.StaticCallee(); cl != nil {
+								if cl.Name() == "ContainsRune" {
+									tests = true
+								} else if cl.Pkg != nil && cl.Pkg.Pkg.Path() == ottoPath {
+									next = append(next, cl)
+								}
+							}
+						}
+					}
+				}
+				if tests && escFd == nil {
+					if fo, ok := sf.Object().(*types.Func); ok {
+						escFd = c.Decl(fo)
+					}
+				}
+			}
+			level = next
+		}
+	}
+	if fd := escFd; fd != nil {
 		got := map[rune]bool{}
 		ast.Inspect(fd.Body, func(n ast.Node) bool {
 			switch x := n.(type) {
@@ -232,7 +266,7 @@ func ruleCharset(c *Ctx, r *R) {
 		extra, missing := setDiff(got, w), setDiff(w, got)
 		r.check(extra == "" && missing == "", "unescaped-set:escape", c.Pos(fd.Pos()), "equal to the B.2.1 set", fmt.Sprintf("escape() leaves {%s} unescaped beyond B.2.1 and escapes {%s} that B.2.1 leaves alone", extra, missing))
 	} else {
-		r.undecided("anchor:escape", "-", "UNRESOLVED builtinShouldEscape")
+		r.undecided("anchor:escape", "-", "UNRESOLVED: no function under the global escape tests a byte against a constant character set")
 	}
 	// --- trim set
 	if cst, ok := sc.Lookup("builtinStringTrimWhitespace").(*types.Const); ok {
@@ -904,7 +938,9 @@ func ruleLibParse(c *Ctx, r *R) {
 			name := pc.Call.StaticCallee().Name()
 			key := fmt.Sprintf("%s:%s#%d", ssaFuncName(fn), name, i+1)
 			site := c.Pos(instrPos(pc))
-			if why, ok := libParseReviewed[ssaFuncName(fn)+":"+name]; ok {
+			if why := parseInputIsRegexpMatch(c, fn, pc); why != "" {
+				r.ok(key+":grammar", site, why)
+			} else if why, ok := libParseReviewed[ssaFuncName(fn)+":"+name]; ok {
 				r.ok("reviewed:"+key, site, why)
 			} else {
 				okGuard, leak := grammarGuarded(c, fn, pc)
@@ -923,15 +959,14 @@ func ruleLibParse(c *Ctx, r *R) {
 }
 
 var libParseReviewed = map[string]string{
-	"parser.parseNumberLiteral:ParseInt":           "input is a NUMBER token produced by the ES5 lexer (scanNumericLiteral)",
-	"parser.parseNumberLiteral:ParseFloat":         "input is a NUMBER token produced by the ES5 lexer (scanNumericLiteral)",
-	"stringToArrayIndex:ParseInt":                  "array-index recognition: the canonical-form test (FormatInt round trip) follows the call (LIB-index)",
-	"builtinGlobalParseInt:ParseInt":               "the loop above cuts the input to its longest prefix of digits valid in the radix, and the radix passed is explicit (never 0), so no prefix or separator syntax applies",
-	"builtinStringFindAndReplaceString$1:ParseInt": "input is the digits of a $n / $nn substitution matched by the constant replacement regexp",
-	"(goArrayObject).getValue:ParseInt":            "dead code (marked unused)",
-	"stringToReflectValue:ParseInt":                "bridge: converts a property name to an integer map key (Go semantics by design)",
-	"stringToReflectValue:ParseUint":               "bridge: converts a property name to an unsigned map key (Go semantics by design)",
-	"stringToReflectValue:ParseFloat":              "bridge: converts a property name to a float map key (Go semantics by design)",
+	"parser.parseNumberLiteral:ParseInt":   "input is a NUMBER token produced by the ES5 lexer (scanNumericLiteral)",
+	"parser.parseNumberLiteral:ParseFloat": "input is a NUMBER token produced by the ES5 lexer (scanNumericLiteral)",
+	"stringToArrayIndex:ParseInt":          "array-index recognition: the canonical-form test (FormatInt round trip) follows the call (LIB-index)",
+	"builtinGlobalParseInt:ParseInt":       "the loop above cuts the input to its longest prefix of digits valid in the radix, and the radix passed is explicit (never 0), so no prefix or separator syntax applies",
+	"(goArrayObject).getValue:ParseInt":    "dead code (marked unused)",
+	"stringToReflectValue:ParseInt":        "bridge: converts a property name to an integer map key (Go semantics by design)",
+	"stringToReflectValue:ParseUint":       "bridge: converts a property name to an unsigned map key (Go semantics by design)",
+	"stringToReflectValue:ParseFloat":      "bridge: converts a property name to a float map key (Go semantics by design)",
 }
 
 var libParseRangeReviewed = map[string]string{
@@ -1318,4 +1353,121 @@ func ruleSortSign(c *Ctx, r *R) {
 	r.check(dom(hasProps) >= 2 && dom(defTests) >= 2, "comparefn-after-undefined", c.Pos(instrPos(cmpCall)),
 		"the comparison function is called only after both elements were tested for presence and for undefined",
 		fmt.Sprintf("sortCompare calls the comparison function before it has tested both elements for presence (%d of 2 tests dominate the call) and for undefined (%d of 2): the function sees `undefined`, and holes / undefined values are ordered by whatever it returns instead of last (`[3,undefined,1].sort(function(x,y){return x-y})`, ES5 15.4.4.11 SortCompare steps 5-12)", dom(hasProps), dom(defTests)))
+}
+
+// parseInputIsRegexpMatch: the text handed to the strconv parser is part[k:] of a parameter `part` that is, at every
+// invocation, one whole match of a constant regular expression (the function is the callback of ReplaceAllFunc /
+// ReplaceAllStringFunc on a package-level regexp, or is only called from such a callback with that parameter), and the
+// expression cannot match any one-byte prefix followed by a Go-only numeric form. Returns the reason, or "".
+func parseInputIsRegexpMatch(c *Ctx, fn *ssa.Function, pc *ssa.Call) string {
+	if len(pc.Call.Args) == 0 {
+		return ""
+	}
+	v := pc.Call.Args[0]
+	var low int64 = -1
+	for i := 0; i < 6; i++ {
+		switch x := v.(type) {
+		case *ssa.Convert:
+			v = x.X
+			continue
+		case *ssa.ChangeType:
+			v = x.X
+			continue
+		case *ssa.Slice:
+			if x.High != nil || x.Max != nil {
+				return ""
+			}
+			if x.Low != nil {
+				k, ok := constInt(x.Low)
+				if !ok {
+					return ""
+				}
+				low = k
+			}
+			v = x.X
+			continue
+		}
+		break
+	}
+	p, ok := v.(*ssa.Parameter)
+	if !ok || low < 0 || low > 1 {
+		return ""
+	}
+	pat := callbackPattern(c, p, 0)
+	if pat == "" {
+		return ""
+	}
+	re, err := regexp.Compile("^(?:" + pat + ")$")
+	if err != nil {
+		return ""
+	}
+	for _, probe := range goOnlyNumericForms {
+		prefixes := []string{""}
+		if low == 1 {
+			prefixes = nil
+			for b := 0x20; b < 0x7f; b++ {
+				prefixes = append(prefixes, string(rune(b)))
+			}
+		}
+		for _, pre := range prefixes {
+			if re.MatchString(pre + probe) {
+				return ""
+			}
+		}
+	}
+	return fmt.Sprintf("the input is the tail of one whole match of the constant expression %s (callback of a Replace*Func), which matches no Go-only numeric form", pat)
+}
+
+// callbackPattern: parameter p receives, at every invocation, one whole match of a package-level constant regexp;
+// returns its pattern.
+func callbackPattern(c *Ctx, p *ssa.Parameter, depth int) string {
+	fn := p.Parent()
+	idx := paramIndex(p)
+	if depth > 2 || idx < 0 {
+		return ""
+	}
+	// fn used as the callback argument of <global regexp>.ReplaceAllFunc / ReplaceAllStringFunc
+	if idx == 0 && fn.Parent() != nil {
+		pat := ""
+		for _, b := range fn.Parent().Blocks {
+			for _, ins := range b.Instrs {
+				call, ok := ins.(*ssa.Call)
+				if !ok || call.Call.StaticCallee() == nil || !strings.HasPrefix(call.Call.StaticCallee().Name(), "ReplaceAll") || !strings.HasSuffix(call.Call.StaticCallee().Name(), "Func") {
+					continue
+				}
+				for _, a := range call.Call.Args {
+					if closureOf(&ssa.CallCommon{Value: a}) == fn && len(call.Call.Args) > 0 {
+						if g := rootGlobal(call.Call.Args[0], 0); g != nil {
+							if s, ok := regexpVarPattern(c, g.Object()); ok {
+								pat = s
+							}
+						}
+					}
+				}
+			}
+		}
+		// and not used in any other way
+		if pat != "" {
+			return pat
+		}
+		return ""
+	}
+	// a named function only called from such callbacks, with their parameter
+	pat := ""
+	ok := c.argAtAllCallSites(p, func(arg ssa.Value, site ssa.CallInstruction) bool {
+		q, isParam := arg.(*ssa.Parameter)
+		if !isParam {
+			return false
+		}
+		s := callbackPattern(c, q, depth+1)
+		if s == "" || (pat != "" && pat != s) {
+			return false
+		}
+		pat = s
+		return true
+	}, 0)
+	if !ok {
+		return ""
+	}
+	return pat
 }
